@@ -1,8 +1,11 @@
 package main
 
 import (
+	"go/types"
+
 	"fmt"
 	"go/token"
+	"golang.org/x/tools/go/ssa"
 	"sort"
 	"strings"
 )
@@ -109,31 +112,96 @@ func init() {
 // count still fits the 16-bit restart count field, and exactly when the
 // record's key is stored without prefix compression.
 func checkRestartCap(p *Program, r *Report) {
-	f := p.MustFunc("(*blockWriter).registerRestart")
-	fk := funcKey(f)
-	var stores []*State
-	cfg := &simCfg{NoInlineDefault: true, NoLoopSamples: true,
-		OnStoreHook: func(c *simClient, x *Exec, st *State, fr *Frame, pos token.Pos, addr, val, old *Term) {
-			if addr.Op == "field" && addr.Aux == "blockWriter.restarts" {
-				stores = append(stores, st.clone())
+	// anchors: the functions that append to the block writer's restart table
+	bwT := p.namedType("blockWriter")
+	bwS, _ := bwT.Underlying().(*types.Struct)
+	ri := -1
+	for i := 0; bwS != nil && i < bwS.NumFields(); i++ {
+		if sl, ok := bwS.Field(i).Type().Underlying().(*types.Slice); ok {
+			if bt, ok := sl.Elem().Underlying().(*types.Basic); ok && bt.Kind() == types.Uint32 {
+				if ri >= 0 {
+					fatalf("unresolved anchor: restart table of the block writer (two []uint32 fields)")
+				}
+				ri = i
 			}
-		}}
-	runSim(p, f, cfg, nil)
-	recv := mk("param", fk+"."+f.Params[0].Name(), nil)
-	restart := mk("param", fk+"."+f.Params[2].Name(), f.Params[2].Type())
-	cnt := mk("len", "", nil, mk("init", "", nil, mk("field", "blockWriter.restarts", nil, recv)))
-	for _, st := range stores {
-		w := witnessOf(p, st.trace)
-		if ok, cex := implied(st, fAtom(tLt(cnt, tConst("65535", nil)))); !ok {
-			r.violate("DT-RESTART-CAP", fk+" / restart count fits 16 bits", p.pos(f.Pos()), "a restart point can be recorded when the block already has 65535 of them: the 2-byte restart count written at the end of the block wraps around: "+cex, w)
-		} else {
-			r.ok("DT-RESTART-CAP", fk+" / restart count fits 16 bits", "append => len(restarts) < 65535")
 		}
-		if st.truth(restart) != 1 {
-			r.violate("DT-RESTART-CAP", fk+" / only full keys are restart points", p.pos(f.Pos()), "a restart point can be recorded for a record whose key is prefix-compressed", w)
-		} else {
-			r.ok("DT-RESTART-CAP", fk+" / only full keys are restart points", "append => restart flag (prefix length 0)")
+	}
+	if ri < 0 {
+		fatalf("unresolved anchor: restart table of the block writer ([]uint32 field)")
+	}
+	fieldName := fieldAux(bwT, ri)
+	var fns []*ssa.Function
+	for _, f := range p.Funcs {
+		found := false
+		for _, b := range f.Blocks {
+			for _, ins := range b.Instrs {
+				sto, ok := ins.(*ssa.Store)
+				if !ok {
+					continue
+				}
+				fa, ok := sto.Addr.(*ssa.FieldAddr)
+				if !ok || fa.Field != ri {
+					continue
+				}
+				if pt, ok := fa.X.Type().Underlying().(*types.Pointer); !ok || !types.Identical(pt.Elem(), bwT) {
+					continue
+				}
+				if _, _, isApp := appendOf(sto.Val); isApp {
+					found = true
+				}
+			}
 		}
+		if found {
+			fns = append(fns, f)
+		}
+	}
+	sort.Slice(fns, func(i, j int) bool { return funcKey(fns[i]) < funcKey(fns[j]) })
+	var stores []*State
+	for _, f := range fns {
+		fk := funcKey(f)
+		var fst []*State
+		cfg := &simCfg{NoInlineDefault: true, NoLoopSamples: true,
+			OnStoreHook: func(c *simClient, x *Exec, st *State, fr *Frame, pos token.Pos, addr, val, old *Term) {
+				if addr.Op == "field" && addr.Aux == fieldName && fr.fn == f {
+					fst = append(fst, st.clone())
+				}
+			}}
+		runSim(p, f, cfg, nil)
+		recv := mk("param", fk+"."+f.Params[0].Name(), nil)
+		// the restart flag: a boolean parameter, or the flag encodeKey returned
+		var flags []*Term
+		for _, pa := range f.Params {
+			if bt, ok := pa.Type().Underlying().(*types.Basic); ok && bt.Kind() == types.Bool {
+				flags = append(flags, mk("param", fk+"."+pa.Name(), pa.Type()))
+			}
+		}
+		cnt := mk("len", "", nil, mk("init", "", nil, mk("field", fieldName, nil, recv)))
+		for _, st := range fst {
+			w := witnessOf(p, st.trace)
+			if ok, cex := implied(st, fAtom(tLt(cnt, tConst("65535", nil)))); !ok {
+				r.violate("DT-RESTART-CAP", fk+" / restart count fits 16 bits", p.pos(f.Pos()), "a restart point can be recorded when the block already has 65535 of them: the 2-byte restart count written at the end of the block wraps around: "+cex, w)
+			} else {
+				r.ok("DT-RESTART-CAP", fk+" / restart count fits 16 bits", "append => len(restarts) < 65535")
+			}
+			isRestart := false
+			for _, fl := range flags {
+				if st.truth(fl) == 1 {
+					isRestart = true
+				}
+			}
+			for _, k := range sortedFactKeys(st) {
+				t := st.fterm[k]
+				if t != nil && st.facts[k] && t.Op == "extract" && t.Aux == "1" && len(t.Args) > 0 && t.Args[0].Op == "call" && t.Args[0].Aux == "encodeKey" {
+					isRestart = true
+				}
+			}
+			if !isRestart {
+				r.violate("DT-RESTART-CAP", fk+" / only full keys are restart points", p.pos(f.Pos()), "a restart point can be recorded for a record whose key is prefix-compressed", w)
+			} else {
+				r.ok("DT-RESTART-CAP", fk+" / only full keys are restart points", "append => restart flag (prefix length 0)")
+			}
+		}
+		stores = append(stores, fst...)
 	}
 	r.floor("DT-RESTART-CAP", len(stores), 1, "paths recording a restart point")
 	// the restart flag is "prefix length is zero"
